@@ -21,6 +21,7 @@ RULE = ("Runs of fit() with 1-3 recording callbacks (CallbackBase subclasses and
         "for the sampled runs).")
 RULE_EXT = ('Extended as built: callbacks given as list / tuple / a CallbackList nested and shared between two fits, 1-3 consecutive fits, hooks that return values, N > 1024, up to 6 callbacks, up to 13 epochs; lambda_validation sub-check for LambdaCallback construction. Round 5: a learning-rate scheduler in the same run; the library MetricEvaluator + EarlyStopping(tolerance 0) at a drawn position in the callback list.')
 RULE_EXT += ' Round 10 (after an exception / long time axis): a fit() aborted by an exception in any hook before the verified run; runs of 33-70 epochs with and without stop requests.'
+RULE_EXT += ' Round 11 (re-entrant use / feature interactions): a busy callback first or last in the callback list in 1 sampled case of 5.'
 RULE = RULE + " " + RULE_EXT
 ASSUMPTIONS = ["a stop requested at train start or epoch start may be followed by at most one batch (both continuations accepted, as the property allows)",
                "callbacks themselves never touch parameters"]
